@@ -3,7 +3,8 @@ import vlib
 from vlib import log
 
 FAMILY = "Deadliner"
-RULE = ("schedules = sequences of Add(duty)/Advance(n)/Read over duties [id,dl] (dl=-1: never expires); generated (a) by "
+RULE = ("schedules = sequences of Add(duty)/Advance(n)/Read/RaceAdd(n, duty: the clock advances and the registration arrives while the "
+        "run goroutine is held inside the deadline function, so that elapsed timer and input are ready together) over duties [id,dl] (dl=-1: never expires); generated (a) by "
         "TLC simulation of DeadlinerGen and (b) by a seeded random generator (many duties per deadline, registrations "
         "exactly at / after the deadline, re-registrations, output channel overflow); executed on core.NewDeadlinerForT "
         "with a fake clock; distinct = distinct recorded traces")
@@ -13,7 +14,7 @@ def random_schedules(seed, n, big):
     r = vlib.rng(seed, "c16")
     out = []
     for i in range(n):
-        kind = r.choice(["mixed", "mixed", "samedl", "overflow", "equal", "late"])
+        kind = r.choice(["mixed", "mixed", "samedl", "overflow", "equal", "late", "race", "race"])
         nd = r.randint(2, 8)
         maxdl = r.randint(1, 6)
         duties = [{"id": "d%d" % k, "dl": r.randint(0, maxdl)} for k in range(nd)]
@@ -34,7 +35,16 @@ def random_schedules(seed, n, big):
             r.shuffle(steps)
         for _ in range(L):
             x = r.random()
-            if x < 0.45:
+            if kind == "race" and x < 0.3:
+                # the clock passes the deadline of a duty (often one that is pending) while the run goroutine is busy and
+                # the duty is registered (again) in that window: RaceAdd = Advance + Add without quiescence in between
+                d = r.choice(duties)
+                by = max(1, d["dl"] - now + r.choice([0, 0, 0, 1])) if d["dl"] >= now else r.randint(1, 2)
+                if r.random() < 0.7 and d["dl"] > now:
+                    steps.append({"ev": "Add", "d": d})
+                steps.append({"ev": "RaceAdd", "by": by, "d": r.choice([d, d, r.choice(duties)])})
+                now += by
+            elif x < 0.45:
                 d = r.choice(duties)
                 if kind == "equal" and r.random() < 0.5 and d["dl"] >= now and d["dl"] > 0:
                     # move the clock exactly to the deadline first, then register (again)
@@ -55,6 +65,23 @@ def random_schedules(seed, n, big):
         for _ in range(r.randint(0, len(duties) + 1)):
             steps.append({"ev": "Read"})
         out.append(steps)
+    return out
+
+
+def with_races(r, scheds, p=0.5):
+    """TLC-generated schedules: an Advance directly followed by an Add becomes, with probability p, a RaceAdd (the model
+    lets a due timer fire any time later; the executor realises that order only through the gate)."""
+    out = []
+    for s in scheds:
+        t, i = [], 0
+        while i < len(s):
+            if i + 1 < len(s) and s[i]["ev"] == "Advance" and s[i + 1]["ev"] == "Add" and r.random() < p:
+                t.append({"ev": "RaceAdd", "by": s[i]["by"], "d": s[i + 1]["d"]})
+                i += 2
+            else:
+                t.append(s[i])
+                i += 1
+        out.append(t)
     return out
 
 
@@ -105,6 +132,7 @@ def run(tier, seed):
     # stage 1: schedules
     scheds, g = vlib.gen_schedules("C16", FAMILY, "DeadlinerGen", "DeadlinerGen.cfg", num=400 if thorough else 60,
                                    depth=40, seed=seed, limit=6000 if thorough else 800)
+    scheds = with_races(vlib.rng(seed, "c16races"), scheds)
     rnd = random_schedules(seed, 3000 if thorough else 400, thorough)
     # stage 2+3
     vlib.conformance(o, FAMILY, "DeadlinerTrace", "DeadlinerTrace.cfg", "c16", scheds, tag="tlcgen")
